@@ -175,7 +175,7 @@ class DbSuite:
                 for i, (o, a, b) in enumerate(zip(ops, it, st)):
                     if b == "*":
                         if o == "X":
-                            dumps.append((c, i, a, it[i + 1] if i + 1 < len(it) else ""))
+                            dumps.append((c, i, a, it[i + 1] if i + 1 < len(it) and ops[i + 1] == "A" else None))
                             if i + 2 < len(it) and ops[i + 2] == "T":
                                 msg = descriptor_mismatch(a, it[i + 2])
                                 if msg:
@@ -203,6 +203,26 @@ class DbSuite:
             if bad:
                 prop.append({"case": c, "impl": lib.trunc(il, 2000), "spec": lib.trunc(sl, 2000), "model": "",
                              "detail": str(bad[1]), "at": bad[0]})
+        # the DatabaseIterator model on the dumped state vs the implementation's iterator
+        iterc = []
+        for c in self.cases:
+            cid = c.split(" ", 1)[0]
+            ops = c.split(" ")[2:]
+            it = impl.get(cid, "").split(" ")[1:]
+            if len(it) != len(ops):
+                continue
+            for i in range(len(ops) - 2):
+                if ops[i] == "X" and ops[i + 1][0] == "J" and ops[i + 1].endswith(":-") and ops[i + 2][0] == "K":
+                    iterc.append((c, i, "t%d %s - %s" % (len(iterc), it[i], ops[i + 2].split(":", 1)[1]), it[i + 2]))
+        if iterc:
+            verd = lib.run_sharded(lib.DRIVER, "itercheck", [x[2] for x in iterc], workdir, tag + "t")
+            for n, (c, i, tc, impl_trace) in enumerate(iterc):
+                v = verd.get("t%d" % n, "")
+                mt = v.split(" ", 1)[1] if " " in v else v
+                if mt != impl_trace:
+                    corr.append({"case": c, "impl": lib.trunc(impl_trace, 800), "model": lib.trunc(mt, 800), "kind": "iterator-model",
+                                 "detail": "DatabaseIterator model on the dumped state at op %d disagrees with the implementation" % i})
+        self.stats["iterator_model_checks"] = len(iterc)
         # judge the dumps
         if dumps:
             dc = ["d%d %s" % (i, d[2]) for i, d in enumerate(dumps)]
@@ -217,10 +237,10 @@ class DbSuite:
                                      "detail": "structural dump at op %d rejected by the model: %s" % (opi, v[:60]), "at": opi})
                     continue
                 views = v.split("views=", 1)[1].split(";") if "views=" in v else [""]
-                if views[0] != scan:
+                if scan is not None and views[0] != scan:
                     prop.append({"case": c, "impl": lib.trunc(dump, 3000), "spec": lib.trunc(scan, 500), "model": lib.trunc(views[0], 500),
                                  "detail": "contents computed from the dumped structure at op %d differ from the scan" % opi, "at": opi})
-        self.stats = {"dumps_judged": len(dumps)}
+        self.stats["dumps_judged"] = len(dumps)
         return corr, prop
 
 
